@@ -11,10 +11,11 @@ R-C29.3  `render_diagnostic` is interpreted on 808 (thorough: 3368) shapes of di
          printed exactly once (c29_render.py; guard-minimality of the output statements only as fallback).
 R-C29.4  "spanned source lines": SourceMap.add_file (re-)reads the file on every call (no
          stale cache); span_lines indexes with the span's own start/end lines.
-R-C29.5  context lines keep their numbers: between `span_lines(...)` and the numbering loop the window is only
-         rewritten line by line and the context count is not changed (c29_lines.py, below).
+R-C29.5  context lines keep their numbers: decided by R-C29.6 on whole rendered snippets (blank lines among the context lines
+         and inside the span included); the shape form -- between `span_lines(...)` and the numbering loop the window is only
+         rewritten line by line and the context count is not changed (c29_lines.py) -- runs only when R-C29.6 is undecided.
 R-C29.6  `render_snippet` interpreted with Span / Loc / SourceMap.span_lines / wrap (textwrap = the standard library's own) on 255
-         spans x context x style x label cases over a nine-line source with indentation up to 20: the numbered lines are the
+         spans x context x style x label cases over an eleven-line source with indentation up to 20 and blank lines: the numbered lines are the
          right source lines minus one common trim, the markers start and end under the spanned columns, every label word is
          shown whole and in order, nothing raises (c29_snippet.py).
 Not decided: termination in general; sources and spans outside the enumerated family.
@@ -73,7 +74,7 @@ def run(ctx: Ctx) -> None:
 
     # ------------------------------------------------------------ R-C29.2
     from . import c29_render, c29_snippet, c29_wrap
-    c29_snippet.run(ctx)  # R-C29.6: snippet lines, marker columns, label words (render_snippet with everything it uses, interpreted)
+    snippet_decided = c29_snippet.run(ctx)  # R-C29.6: snippet lines, marker columns, label words (render_snippet with everything it uses, interpreted)
     if not c29_wrap.run(ctx):
         # fallback (wrap could not be interpreted): shape of the destructuring, and callers never pass an empty text
         destr = [n for n in walk_no_nested(wrap.node) if isinstance(n, ast.Assign) and isinstance(n.targets[0], (ast.List, ast.Tuple))
@@ -166,4 +167,4 @@ def run(ctx: Ctx) -> None:
               "registering a file that is already known keeps the old text: after the file changed, diagnostics show stale source lines "
               "under the new line numbers (or rendering fails past the end of the stale copy)")
     from . import c29_lines
-    c29_lines.run(ctx)
+    c29_lines.run(ctx, numbers_decided=snippet_decided)  # (R-C29.6 compares the numbered lines of whole rendered snippets)
